@@ -37,6 +37,18 @@ Mixed == << OctKey(32, "a", "HS256", "k1"), AsymKey("p256a", 0, NONE, "k2"), Wit
 T(via, cls, text) == [op |-> "Load", ring |-> 0, via |-> via, doc |-> cls, keys |-> <<>>, text |-> text]
 NonJson == {"", " ", "{", "{\"keys\":[", "keys", "{\"kty\":\"oct\",\"k\":\"AAAA\"}}", "[1,2", "{'kty':'oct'}", "nul", "\"abc"}
 JsonOther == {"1", "\"str\"", "null", "true", "[]", "[1,2,3]", "{}", "{\"a\":1}", "1.5", "[{\"kty\":\"oct\",\"k\":\"AAAA\"}]"}
+HexJwkNulGarbage == "7b226b7479223a226f6374222c226b223a2241414543417751464267634943516f4c4441304f4478415245684d554652595847426b6147787764486838222c226b6964223a226e227d0067617262616765"
+HexJwkNulJwk == "7b226b7479223a226f6374222c226b223a2241414543417751464267634943516f4c4441304f4478415245684d554652595847426b6147787764486838222c226b6964223a226e227d007b226b7479223a226f6374222c226b223a2241414543417751464267634943516f4c4441304f4478415245684d554652595847426b6147787764486838222c226b6964223a226e227d"
+HexJwksNul == "7b226b657973223a5b7b226b7479223a226f6374222c226b223a2241414543417751464267634943516f4c4441304f4478415245684d554652595847426b6147787764486838222c226b6964223a226e227d2c7b226b7479223a226f6374222c226b223a2241414543417751464267634943516f4c4441304f4478415245684d554652595847426b6147787764486838222c226b6964223a226e227d5d7d00"
+HexNulJwk == "007b226b7479223a226f6374222c226b223a2241414543417751464267634943516f4c4441304f4478415245684d554652595847426b6147787764486838222c226b6964223a226e227d"
+HexJwkNulInside == "7b226b7479223a226f6374222c226b223a224141004543417751464267634943516f4c4441304f4478415245684d554652595847426b6147787764486838222c226b6964223a226e227d"
+HexJwkSpaceNul == "7b226b7479223a226f6374222c226b223a2241414543417751464267634943516f4c4441304f4478415245684d554652595847426b6147787764486838222c226b6964223a226e227d200020"
+\* byte strings with an embedded NUL are not JSON (length-taking and file entry points see all bytes)
+H(via, hex) == [op |-> "Load", ring |-> 0, via |-> via, doc |-> "nonjson", keys |-> <<>>, hex |-> hex]
+NulDocs == {HexJwkNulGarbage, HexJwkNulJwk, HexJwksNul, HexNulJwk, HexJwkNulInside, HexJwkSpaceNul}
+NulScripts ==
+  { <<H(v, x)>> : v \in {"create_strn", "create_fromfile", "create_fromfp"}, x \in NulDocs }
+  \cup { <<L("create", "keys", <<Good>>), H(v, x), L("load", "keys", <<Good>>)>> : v \in {"load_strn", "fromfile", "fromfp"}, x \in NulDocs }
 EntryScripts ==
   { <<L(Vias[i], doc, Mixed)>> : i \in {3, 4, 7, 8}, doc \in {"keys", "keysextra", "toparray"} }
   \cup { <<L("create", "keys", <<Good>>), L(Vias[i], doc, Mixed), L(Vias[i], "single", <<Good>>)>> : i \in {1, 2, 5, 6}, doc \in {"keys", "keysextra", "toparray"} }
@@ -46,7 +58,7 @@ EntryScripts ==
   \cup { <<L("create", "keys", <<Good>>), T(Vias[i], "jsonother", t)>> : i \in {1, 2}, t \in JsonOther }
   \cup { <<L("create", "keys", <<Raw(1), Raw("x"), Good, Raw(<<>>), Raw([a |-> 1])>>)>>,
          <<L("create", "keys", <<>>)>>, <<T("create", "anyraw", "{\"keys\":{\"kty\":\"oct\"}}")>>, <<T("create", "anyraw", "{\"keys\":5}")>> }
-C07Scripts == DefectScripts \cup EntryScripts
+C07Scripts == DefectScripts \cup EntryScripts \cup NulScripts
 MCSpec == ISpecWith(C07Scripts)
 \* on the specification: a load adds exactly one item per element / one for any other JSON
 \* document / none for text that is not JSON, appended after what was there
